@@ -35,7 +35,7 @@ class BoomOS(OSError):
     pass
 
 
-BODY_EXC = {"Boom": Boom, "RuntimeError": RuntimeError, "ValueError": ValueError, "OSError": BoomOS,
+BODY_EXC = {"CancelledError": asyncio.CancelledError, "Boom": Boom, "RuntimeError": RuntimeError, "ValueError": ValueError, "OSError": BoomOS,
             "ConnectionResetError": ConnectionResetError, "TimeoutError": TimeoutError, "KeyError": KeyError}
 
 
